@@ -246,6 +246,10 @@ def run_plan(plan, sched_seed=None, sched_replay=None):
     if min(rk['c_bytes'], rk['s_bytes']) == 1:
         sim.probes['rekey_per_packet'] += 1
 
+    if run.connect_error is not None:
+        world.violation('connect-failed', 'connect() failed without any '
+                        'fault: %r' % (run.connect_error,))
+
     for err in run.open_errors:
         world.violation('open-failed', 'channel %d failed to open: %r' % err)
 
